@@ -57,14 +57,28 @@ def dna_seq(rng, n, gaps=True):
 
 
 CHAR_FLAVOURS = ["dna", "dna-fmt", "interleave", "multistate", "standard", "symbols", "protein", "rna", "continuous",
-                 "matchchar", "nucleotide", "noformat", "interleave-continuous", "gapmissing"]
+                 "matchchar", "nucleotide", "noformat", "interleave-continuous", "gapmissing",
+                 "blocks", "interleave-blocks"]
+
+
+def in_runs(rng, cells, nruns=None):
+    """the cells of a row (single symbols or multistate groups) written as whitespace-separated runs"""
+    if len(cells) < 2:
+        return "".join(cells)
+    k = nruns or rng.randint(2, min(3, len(cells)))
+    cp = sorted(rng.sample(range(1, len(cells)), k - 1))
+    return " ".join("".join(cells[a:b]) for a, b in zip([0] + cp, cp + [len(cells)]))
+
+
+def dna_cells(rng, n, groups=0.15):
+    return [rng.choice(["{AG}", "(CT)", "{A C}", "{A,G}"]) if rng.random() < groups else rng.choice("ACGT-?") for _ in range(n)]
 
 
 def gen_nexus(rng, structure=None, flavour=None):
     """a valid NEXUS document; returns (text, structure name)"""
     structure = structure or rng.choice(STRUCTURES)
     nt = rng.randint(2, 4)
-    nc = rng.randint(2, 6)
+    nc = rng.randint(2, 6) if flavour not in ("blocks", "interleave-blocks") else rng.randint(6, 12)
     labels = rng.sample([l for l in LABELS if l != "'q r'"], nt)
     nl = rng.choice(["\n", "\n", " "]) if structure not in ("interleaved+trees", "char-flavours", "flavour") else "\n"
     ind = rng.choice(["", "  "])
@@ -129,6 +143,11 @@ def gen_nexus(rng, structure=None, flavour=None):
         elif flavour == "interleave":
             fmt = "DATATYPE=DNA " + rng.choice(["INTERLEAVE", "INTERLEAVE=YES", "INTERLEAVE=yes GAP=-"])
             rows = [dna_seq(rng, nc) for _ in labels]
+        elif flavour in ("blocks", "interleave-blocks"):
+            # rows written in several whitespace-separated runs (and multistate groups): the row is complete
+            # when the TOTAL of its runs reaches NCHAR
+            fmt = "DATATYPE=DNA" + (" INTERLEAVE" if flavour.startswith("inter") else "")
+            rows = [dna_cells(rng, nc) for _ in labels]
         if fmt:
             b.append(ind + "FORMAT %s;" % fmt)
         b.append(ind + "MATRIX")
@@ -139,6 +158,16 @@ def gen_nexus(rng, structure=None, flavour=None):
             b.append("")
             for l, r in zip(labels, rows):
                 b.append(ind + "%s %s" % (l, r[h:]))
+        elif flavour == "interleave-blocks":
+            h = nc // 2
+            for l, r in zip(labels, rows):
+                b.append(ind + "%s %s" % (l, in_runs(rng, r[:h])))
+            b.append("")
+            for l, r in zip(labels, rows):
+                b.append(ind + "%s %s" % (l, in_runs(rng, r[h:])))
+        elif flavour == "blocks":
+            for l, r in zip(labels, rows):
+                b.append(ind + "%s %s" % (l, in_runs(rng, r)))
         elif flavour == "interleave-continuous" and nc >= 2:
             h = nc // 2
             for l, r in zip(labels, rows):
@@ -220,6 +249,73 @@ def gen_nexus(rng, structure=None, flavour=None):
 STRUCTURES = ["taxa", "taxa+characters", "data", "taxa+trees", "taxa+trees-translate", "trees-only-translate",
               "taxa+characters+sets", "titles-links", "unknown-block", "all", "two-taxa-blocks",
               "interleaved+trees", "char-flavours"]
+
+DIMS_WHERE = ["first-run", "later-run", "after-group", "extra-run", "extra-group"]
+
+
+def gen_nexus_dims(rng, inter=None, delta=None, where=None):
+    """a NEXUS document one of whose rows has a TOTAL number of characters different from the declared NCHAR,
+    the row being written as several whitespace-separated runs / multistate groups: the surplus (or the gap)
+    sits in the first run, in a later run, behind a multistate group, in a run or a group of its own;
+    sequential and interleaved.  -> (text, kind)"""
+    nt = rng.randint(2, 3)
+    nc = rng.randint(6, 12)
+    labels = rng.sample(["A", "B", "t1", "Homo", "sp3", "x_y", "Pan"], nt)
+    inter = (rng.random() < 0.4) if inter is None else inter
+    delta = rng.choice([1, 1, 1, 2, -1, -2, 3]) if delta is None else delta
+    where = where or rng.choice(DIMS_WHERE)
+    victim = rng.randrange(nt)
+    sym = lambda: rng.choice("ACGT")
+    grp = lambda: rng.choice(["{AG}", "(CT)", "{A C}"])
+
+    def runs_of(cells, bad):
+        """cells of one row (or one page of a row) -> its text; `bad`: apply the change of total here"""
+        n = len(cells)
+        cut = rng.randint(1, n - 1) if n >= 2 else n
+        r1, r2 = list(cells[:cut]), list(cells[cut:])
+        if not bad:
+            return " ".join("".join(r) for r in (r1, r2) if r)
+        extra = [sym() for _ in range(max(delta, 0))]
+        drop = max(-delta, 0)
+        tail = []
+        if where == "first-run":
+            r1 = r1 + extra if not drop else r1[:max(len(r1) - drop, 0)]
+        elif where == "later-run":
+            r2 = r2 + extra if not drop else r2[:max(len(r2) - drop, 0)]
+        elif where == "after-group":
+            r1[rng.randrange(len(r1))] = grp()
+            r2 = r2 + extra if not drop else r2[:max(len(r2) - drop, 0)]
+        elif where == "extra-run":
+            if drop:
+                r2 = r2[:max(len(r2) - drop, 0)]
+            else:
+                tail = [extra]
+        elif where == "extra-group":
+            if drop:
+                r1[0] = grp()
+                r2 = r2[:max(len(r2) - drop, 0)]
+            else:
+                tail = [[grp() for _ in extra]]
+        return " ".join("".join(r) for r in [r1, r2] + tail if r)
+
+    rows = [[sym() for _ in range(nc)] for _ in labels]
+    b = ["#NEXUS", "BEGIN TAXA;", "DIMENSIONS NTAX=%d;" % nt, "TAXLABELS " + " ".join(labels) + ";", "END;",
+         "BEGIN CHARACTERS;", "DIMENSIONS NCHAR=%d;" % nc, "FORMAT DATATYPE=DNA%s;" % (" INTERLEAVE" if inter else ""), "MATRIX"]
+    if inter:
+        h = nc // 2
+        page = rng.choice([0, 1, 1])
+        for pg, (lo, hi) in enumerate(((0, h), (h, nc))):
+            for i, (l, r) in enumerate(zip(labels, rows)):
+                b.append("%s %s" % (l, runs_of(r[lo:hi], i == victim and pg == page)))
+            if pg == 0:
+                b.append("")
+    else:
+        for i, (l, r) in enumerate(zip(labels, rows)):
+            b.append("%s %s" % (l, runs_of(r, i == victim)))
+    b += [";", "END;"]
+    kind = "dims:%s:%s:%s" % ("interleaved" if inter else "sequential", "long" if delta > 0 else "short", where)
+    return "\n".join(b) + "\n", kind
+
 
 NEXUS_CHARSET_PROBE = ("#NEXUS\nBEGIN TAXA;\nDIMENSIONS NTAX=2;\nTAXLABELS A B;\nEND;\nBEGIN CHARACTERS;\nDIMENSIONS NCHAR=4;\n"
                        "FORMAT DATATYPE=DNA;\nMATRIX\nA ACGT\nB ACGT\n;\nEND;\nBEGIN SETS;\nCHARSET x = foo;\nEND;\n")
@@ -349,6 +445,8 @@ def nexus_modelled(text):
 TAXA2 = "#NEXUS\nBEGIN TAXA;\nDIMENSIONS NTAX=2;\nTAXLABELS A B;\nEND;\n"
 CHARS2 = "BEGIN CHARACTERS;\nDIMENSIONS NCHAR=4;\nFORMAT DATATYPE=DNA;\nMATRIX\nA ACGT\nB ACGT\n;\nEND;\n"
 
+_CH12 = "BEGIN CHARACTERS;\nDIMENSIONS NCHAR=12;\nFORMAT DATATYPE=%s;\nMATRIX\n%s;\nEND;\n"
+
 FIXED = [
     ("nexus", "", "empty"), ("nexus", "   \n", "empty"), ("nexus", "#NEXUS", "minimal"), ("nexus", "#NEXUS\n", "minimal"),
     ("nexus", "#NEXUS BEGIN", "minimal"), ("nexus", "BEGIN TAXA;", "not-nexus"),
@@ -372,6 +470,15 @@ FIXED = [
     ("nexus", TAXA2 + "BEGIN CHARACTERS;\nDIMENSIONS NCHAR=4;\nFORMAT DATATYPE=DNA INTERLEAVE;\nMATRIX\nA AC\nB AC\n\nA GT\nB G\n;\nEND;\n", "interleaved-short-row"),
     ("nexus", TAXA2 + "BEGIN CHARACTERS;\nDIMENSIONS NCHAR=4;\nFORMAT DATATYPE=DNA INTERLEAVE;\nMATRIX\nA AC\nB AC\n\nA GT\nB GT\n;\nEND;\nBEGIN TREES;\nTRANSLATE\n1 A,\n2 B;\nTREE t = (1,\n2);\nEND;\n", "interleaved-then-multiline-trees"),
     ("nexus", TAXA2 + "BEGIN CHARACTERS;\nDIMENSIONS NCHAR=2;\nFORMAT DATATYPE=DNA;\nMATRIX\nA {AG}{}\nB (A\n;\nEND;\n", "multistate-open"),
+    ("nexus", TAXA2 + _CH12 % ("DNA", "A ACGTAC GTACGT\nB ACGTAC GTACGT\n"), "rows-in-runs"),
+    ("nexus", TAXA2 + _CH12 % ("DNA", "A ACGTAC GTACGAT\nB ACGTAC GTACGT\n"), "long-row-later-run"),
+    ("nexus", TAXA2 + _CH12 % ("DNA", "A ACGTAC GTACGT\nB ACGTAC GTACGT A\n"), "long-row-extra-run"),
+    ("nexus", TAXA2 + _CH12 % ("DNA", "A ACGTA{AG} GTACGTA\nB ACGTAC GTACGT\n"), "long-row-after-group"),
+    ("nexus", TAXA2 + _CH12 % ("DNA", "A ACGTAC GTACGT{AG}\nB ACGTAC GTACGT\n"), "long-row-extra-group"),
+    ("nexus", TAXA2 + _CH12 % ("DNA", "A ACGTAC GTACG\nB ACGTAC GTACGT\n"), "short-row-later-run"),
+    ("nexus", TAXA2 + _CH12 % ("DNA INTERLEAVE", "A ACG TAC\nB ACG TAC\n\nA GTA CGAT\nB GTA CGT\n"), "interleaved-long-row-later-run"),
+    ("nexus", TAXA2 + _CH12 % ("DNA INTERLEAVE", "A ACG TAC\nB ACG TAC\n\nA GTA CGT\nB G{AG}A CGTT\n"), "interleaved-long-row-after-group"),
+    ("nexus", TAXA2 + _CH12 % ("DNA INTERLEAVE", "A ACG TACA\nB ACG TAC\n\nA GTA CGT\nB GTA CGT\n"), "interleaved-long-row-first-page"),
     ("nexus", TAXA2 + "BEGIN CHARACTERS;\nDIMENSIONS NCHAR=2;\nFORMAT DATATYPE=DNA MATCHCHAR=;\nMATRIX\nA AC\nB ..\n;\nEND;\n", "matchchar-eof"),
     ("newick", "", "empty"), ("newick1", "", "empty"), ("newick1", ";", "no-trees"), ("newick", "(a,b));", "unbalanced"),
     ("phylip", "", "empty"), ("phylip", "2 4\na ACGT\nb ACG\n", "short-row"), ("phylip", "2 4\na ACGTA\nb ACGT\n", "long-row"),
@@ -505,6 +612,12 @@ def cases(rng, tier):
                 out.extend(chunked_families("nexus", text, {}, "truncation:flavour:" + fl))
             for _e in range(4 if quick else 30):
                 out.append(edited(rng, "nexus", text, {}, rng.choice([1, 1, 2])))
+    # rows in several runs / multistate groups whose total differs from NCHAR
+    for i in range(60 if quick else 600):
+        text, kind = gen_nexus_dims(rng, where=DIMS_WHERE[i % len(DIMS_WHERE)])
+        out.append({"reader": "nexus", "text": text, "kind": kind})
+        if i % 4 == 0:
+            out.append({"reader": "nexus_chars", "text": text, "kind": kind})
     # a few inputs with characters outside ASCII
     for t in ["(é,中);", ">é\nAC→G\n", "1 2\n中 AC\n", "#NEXUS\nBEGIN TAXA;\nDIMENSIONS NTAX=1;\nTAXLABELS é;\nEND;\n",
               "١ ٢\na A\n\n", "1 2\na AC\n\n", ">a\nA C\n"]:
@@ -519,6 +632,9 @@ def search_stream(rng):
     for reader, text, kind in FIXED:
         yield {"reader": reader, "text": text, "kind": "fixed:" + kind}
     for rounds in range(50):
+        for i in range(40):
+            text, kind = gen_nexus_dims(rng, where=DIMS_WHERE[i % len(DIMS_WHERE)])
+            yield {"reader": "nexus", "text": text, "kind": kind}
         for s in STRUCTURES:
             text, st = gen_nexus(rng, s)
             for f in chunked_families("nexus", text, {}, "truncation:" + st):
